@@ -30,8 +30,19 @@ SPEC = {
              "shoots the scenarios in mixed order; every scenario then lists a marker call of its own (Hello, name = this invocation's "
              "token) right after auth, by which the server's log tells the scenario of an invocation; 1-10 "
              "invocations by 1-4 instances, gun timeout 0.4 / 1 / 3 s (every call must arrive with a deadline no later than it). The recording server issues a unique token and user id per Auth call; calls are grouped "
-             "into invocations by that token. Non-trivial = a metadata value that differs per invocation and >= 2 invocations."),
-    "floors": {"TestGRPCJSON/reflect_port": 0.27, "TestGRPCJSON/reflect_port_client_per_instance": 0.12,
+             "into invocations by that token. Non-trivial = a metadata value that differs per invocation and >= 2 invocations. "
+             "TestGRPCScenarioPaced: grpc/scenario descriptions that take LONGER than the gun's `timeout` (400 / 500 / 700 ms) while every "
+             "single call stays well within it: Auth and 1-5 List / Order / Hello calls (multiplicities 1-3, payload and x-inv metadata "
+             "from this invocation's Auth response), built around one of: a `sleep(N)` step of 1.2-2.2 x timeout in front of some call "
+             "(other steps: sleeps of 0.3-0.8 x timeout, answers that take 0.3-0.4 x timeout); a per-call sleep `name(count, N)` of "
+             "1.2-2.2 x timeout after auth or after a call listed twice; no sleep at all and 4-6 calls that the server answers after "
+             "0.3-0.4 x timeout each; a mix of all of these. 1-2 invocations by 1-2 instances, one invocation is planned to take at most "
+             "3.5 s; cases of a process run concurrently, each against a recording server of its own. Non-trivial = some call starts "
+             "after more than `timeout` has (nominally) passed since the start of its invocation."),
+    "floors": {"TestGRPCScenarioPaced/call_starts_after_timeout_has_passed_since_scenario_start": 0.6,
+               "TestGRPCScenarioPaced/beyond_timeout_by_sleep_steps": 0.2, "TestGRPCScenarioPaced/beyond_timeout_by_per_call_sleep": 0.08,
+               "TestGRPCScenarioPaced/beyond_timeout_by_slow_answers_only": 0.08, "TestGRPCScenarioPaced/call_starts_late_within_timeout": 0.25,
+               "TestGRPCJSON/reflect_port": 0.27, "TestGRPCJSON/reflect_port_client_per_instance": 0.12,
                "TestGRPCJSON/reflect_port_shared_client_all_clients_used": 0.1, "TestGRPCJSON/shared_client_default_client_number": 0.07,
                "TestGRPCJSON/shared_clients_ge_2_all_used": 0.085,
                "TestGRPCScenario/fixed_payload_templated_metadata": 0.25,
@@ -62,9 +73,15 @@ SPEC = {
                  "compared as a multiset of value tuples, since nothing in its message tells the invocation - equals the renderings for the invocations whose scenario "
                  "lists it, times its multiplicity; values of the randomization functions must have the documented form (uuid v4, a number "
                  "between the bounds, a string of the given length) and never the template text; one sample per call tagged <scenario>.<call tag>. Metadata keys are looked up "
-                 "case-insensitively at the server (gRPC sends them in lower case)."),
+                 "case-insensitively at the server (gRPC sends them in lower case). TestGRPCScenarioPaced: every call of every invocation "
+                 "must reach the server the number of times the scenario lists it, whatever time of the scenario has passed before it, "
+                 "carrying a deadline that is the gun's timeout counted from the call's own start - at the server no more than `timeout` "
+                 "and no less than 3/4 of it is left -, and leave a 200 sample (the server answers every call after at most 0.4 x timeout)."),
         "note": ("JSON numbers above 2^53 are only generated as strings (the ammo is decoded through float64 by design of JSON maps). "
-                 "Entries are matched to server calls by an x-entry metadata marker."),
+                 "Entries are matched to server calls by an x-entry metadata marker. "
+                 "The lower bound on the deadline seen by the server (3/4 of the timeout) leaves 100-175 ms for the way from the gun's "
+                 "context to the server's handler; a shortfall is only believed when the load probe saw the machine undisturbed "
+                 "(vf.LoadTolerant). The grpc/scenario gun's configuration has no shared-client section, so it is not a dimension there."),
     },
     "assumptions": ["proto3 JSON mapping as implemented by google.golang.org/protobuf/encoding/protojson is the reference interpretation of a payload"],
 }
